@@ -32,6 +32,7 @@ def _plain(v):
 
 
 def _parse_chunk(lines):
+    """-> nodes [(tlc id, node as JSON text without its edges, is initial, fault set as text)], edges [(from, to)]"""
     nodes, edges = [], []
     for line in lines:
         m = _edge_re.match(line)
@@ -47,39 +48,68 @@ def _parse_chunk(lines):
             name, _, v = part.strip().partition(" = ")
             if name in KEEP:
                 st[name] = _plain(parse_tla_value(v))
-        nodes.append((m.group(1), st, bool(m.group(3))))
+        if set(st) != set(KEEP):
+            raise ValueError("unexpected node label: " + txt[:300])
+        js = json.dumps(st, separators=(",", ":"))
+        nodes.append((m.group(1), js[:-1], bool(m.group(3)), json.dumps(sorted(json.dumps(x, sort_keys=True) for x in st["flt"]))))
     return nodes, edges
 
 
-def load_graph(ctx, dot, layout):
-    """the dumped state graph as {lay, inits, nodes:[{call,res,obs,flt,out}]}; parsed with the engine's TLA+ value parser, in parallel"""
+def load_graph(ctx, dot, layout, outdir, want):
+    """the dumped state graph, parsed with the engine's TLA+ value parser (in parallel) and written as one JSON file per group
+    of fault sets (the components of different fault sets are disjoint): {lay, inits, nodes:[{call,res,obs,flt,out}]}"""
     with open(dot) as f:
         lines = f.readlines()
     n = max(1, min(os.cpu_count() or 4, 16))
     size = max(2000, len(lines) // (n * 4) + 1)
     chunks = [lines[i:i + size] for i in range(0, len(lines), size)]
+    del lines
     with mp.Pool(n) as pool:
         parts = pool.map(_parse_chunk, chunks)
-    ids, nodes, inits = {}, [], []
+    del chunks
+    comp = {}                     # fault set -> shard
+    where = {}                    # tlc id -> (shard, index in shard)
+    shards = []                   # per shard: [node texts], [out lists], [inits]
     for ns, _ in parts:
-        for tid, st, init in ns:
-            if tid in ids:
+        for tid, js, init, fk in ns:
+            if tid in where:
                 continue
-            ids[tid] = len(nodes)
-            st["out"] = []
-            nodes.append(st)
+            if fk not in comp:
+                comp[fk] = len(comp) % want
+                if comp[fk] == len(shards):
+                    shards.append(([], [], []))
+            sh = shards[comp[fk]]
+            where[tid] = (comp[fk], len(sh[0]))
+            sh[0].append(js)
+            sh[1].append([])
             if init:
-                inits.append(ids[tid])
+                sh[2].append(len(sh[0]) - 1)
     ne = 0
     for _, es in parts:
         for a, b in es:
-            if a != b:
-                nodes[ids[a]]["out"].append(ids[b])
-                ne += 1
-    if not inits or not nodes:
+            if a == b:
+                continue
+            (sa, ia), (sb, ib) = where[a], where[b]
+            if sa != sb:
+                raise Machinery("state graph: a transition joins two fault sets")
+            shards[sa][1][ia].append(ib)
+            ne += 1
+    del parts
+    nn = len(where)
+    if not nn or not any(sh[2] for sh in shards):
         raise Machinery("state graph of MC_Registry is empty")
-    ctx.log("state graph: %d states, %d transitions, %d initial states (fault sets)" % (len(nodes), ne, len(inits)))
-    return {"lay": layout, "inits": inits, "nodes": nodes}, ne
+    files = []
+    lay = json.dumps(layout, separators=(",", ":"))
+    for i, (txt, outs, inits) in enumerate(shards):
+        gp = os.path.join(outdir, "g_%d.json" % i)
+        with open(gp, "w") as f:
+            f.write('{"lay":%s,"inits":%s,"nodes":[' % (lay, json.dumps(inits)))
+            for j, js in enumerate(txt):
+                f.write("%s%s,\"out\":%s}" % ("," if j else "", js, json.dumps(outs[j], separators=(",", ":"))))
+            f.write("]}")
+        files.append(gp)
+    ctx.log("state graph: %d states, %d transitions, %d fault sets in %d files" % (nn, ne, len(comp), len(files)))
+    return files, nn, ne
 
 
 def layout_of(out):
@@ -92,28 +122,26 @@ def layout_of(out):
 
 def walk(ctx, cfg):
     r = ctx.tlc("MC_Registry", cfg, dump=True, timeout=3000)
-    g, ne = load_graph(ctx, r.dot, layout_of(r.out))
     d = ctx.sub("walk")
-    gp = os.path.join(d, "g.json")
-    json.dump(g, open(gp, "w"), separators=(",", ":"))
+    files, nn, ne = load_graph(ctx, r.dot, layout_of(r.out), d, max(1, min(os.cpu_count() or 4, 16)))
+    os.remove(r.dot)
     vh = ctx.build(PKG)
-    shards = max(1, min(len(g["inits"]), os.cpu_count() or 4, 16))
 
     def one(k):
         o = os.path.join(d, "walk_%d.json" % k)
-        ctx.run([vh, "walk", "-graph", gp, "-shard", str(k), "-of", str(shards), "-out", o], timeout=3000)
+        ctx.run([vh, "walk", "-graph", files[k], "-out", o], timeout=3000)
         return json.load(open(o))
     res = {"paths": 0, "steps": 0, "skipped": 0, "nodes": 0, "slow_edges_left_to_traces": 0, "bad": []}
-    with cf.ThreadPoolExecutor(max_workers=shards) as ex:
-        for x in ex.map(one, range(shards)):
+    with cf.ThreadPoolExecutor(max_workers=len(files)) as ex:
+        for x in ex.map(one, range(len(files))):
             for k in res:
                 res[k] += x[k]
     ctx.log("walk: %d transitions executed behind a shortest path (%d calls) over %d model states, %d paths not realised "
             "(the code took another allowed outcome), %d transitions with a one-second call left to the traces, %d differing"
             % (res["paths"], res["steps"], res["nodes"], res["skipped"], res["slow_edges_left_to_traces"], len(res["bad"])))
-    if res["nodes"] < 0.5 * len(g["nodes"]):
-        raise Machinery("the walk reached only %d of %d model states" % (res["nodes"], len(g["nodes"])))
-    return res, len(g["nodes"]), ne
+    if res["nodes"] < 0.5 * nn:
+        raise Machinery("the walk reached only %d of %d model states" % (res["nodes"], nn))
+    return res, nn, ne
 
 
 def gen(ctx, jobs):
@@ -232,28 +260,37 @@ def run(ctx):
         "SMF.RecordFrom on a file with SMPTE time format (panics on a type assertion; outside the domain: smf.New() is metric)",
         "InPorts.String / OutPorts.String are judged on the random traces only (the walk compares result and state, not the text)",
     ]
-    # ---- model + binding G
-    if q:
-        res, nn, ne = walk(ctx, "MC_Registry_quick.cfg")
-    else:
-        ctx.model_check("MC_Registry", "MC_Registry.cfg", timeout=3000)
-        ctx.model_check("MC_Registry", "MC_Registry_faults.cfg", timeout=3000)
-        res, nn, ne = walk(ctx, "MC_Registry_walk.cfg")
-    fails = []
-    if res["bad"]:
-        fails = judge(ctx, res["bad"], shards=1)
-        if not fails:
-            raise Machinery("walker flagged %d sequences that TLC accepts (walk and trace specification disagree)" % len(res["bad"]))
-    ctx.cov["graph_walk"] = {"model_states": nn, "transitions": ne, "executed": res["paths"], "calls": res["steps"], "unrealised_alternatives": res["skipped"]}
-    ctx.cov["traces_validated_against_impl"] += res["paths"]
-    ctx.count(res["steps"], [("walk", res["nodes"])])
-    # ---- binding T
+    ctx.build(PKG)
+    # ---- binding T (runs beside the model check: its recording calls mostly sleep)
     if q:
         jobs = [(500, ctx.seed * 1000, False)] + [(3, ctx.seed * 1000 + 1 + i, True) for i in range(16)]
     else:
         jobs = [(2500, ctx.seed * 1000 + 100 + i, False) for i in range(4)] + [(12, ctx.seed * 1000 + 200 + i, True) for i in range(32)]
-    recs = gen(ctx, jobs)
-    tfails = judge(ctx, recs)
+
+    def traces():
+        rs = gen(ctx, jobs)
+        return rs, judge(ctx, rs)
+    pool = cf.ThreadPoolExecutor(max_workers=1)
+    fut = pool.submit(traces)
+    # ---- model + binding G
+    try:
+        if q:
+            res, nn, ne = walk(ctx, "MC_Registry_quick.cfg")
+        else:
+            ctx.model_check("MC_Registry", "MC_Registry.cfg", timeout=3000)
+            ctx.model_check("MC_Registry", "MC_Registry_faults.cfg", timeout=3000)
+            res, nn, ne = walk(ctx, "MC_Registry_walk.cfg")
+        fails = []
+        if res["bad"]:
+            fails = judge(ctx, res["bad"], shards=1)
+            if not fails:
+                raise Machinery("walker flagged %d sequences that TLC accepts (walk and trace specification disagree)" % len(res["bad"]))
+    finally:
+        recs, tfails = fut.result()
+        pool.shutdown()
+    ctx.cov["graph_walk"] = {"model_states": nn, "transitions": ne, "executed": res["paths"], "calls": res["steps"], "unrealised_alternatives": res["skipped"]}
+    ctx.cov["traces_validated_against_impl"] += res["paths"]
+    ctx.count(res["steps"], [("walk", res["nodes"])])
     feats = Counter()
     hard = []
     for r in recs:
